@@ -531,6 +531,13 @@ pub fn alphabet(tier: Tier) -> Vec<ROp> {
 
 pub fn run_c11(ctx: &Ctx) -> i32 {
     let (mut coverage, assumptions) = explore_registry(ctx, ctx.tier.pick(4, 5));
+    // the same exploration from a registry that already holds two codes (one level less): histories
+    // such as instantiate / migrate to the other code / instantiate again need both codes first
+    let (second, _) = explore_registry_from(ctx, ctx.tier.pick(3, 4), &[ROp::Store, ROp::Store]);
+    for k in ["states", "transitions", "traces_validated_against_impl", "evaluations", "distinct_nontrivial"] {
+        coverage[k] = json!(coverage[k].as_u64().unwrap_or(0) + second[k].as_u64().unwrap_or(0));
+    }
+    coverage["second_exploration_from_two_stored_codes"] = json!({"depth_completed": second["depth_completed"], "states": second["states"], "transitions": second["transitions"], "caps_hit": second["caps_hit"]});
     let coll = colliding_generators(ctx, ctx.tier.pick(4, 6));
     coverage["transitions"] = json!(coverage["transitions"].as_u64().unwrap_or(0) + coll["steps"].as_u64().unwrap_or(0));
     coverage["evaluations"] = json!(coverage["evaluations"].as_u64().unwrap_or(0) + coll["steps"].as_u64().unwrap_or(0));
@@ -541,6 +548,11 @@ pub fn run_c11(ctx: &Ctx) -> i32 {
 /// The registry exploration; when run on behalf of C19 (`ctx.id == "C19"`) only the replay
 /// validation (state reached through snapshots = state reached from genesis) is reported.
 pub fn explore_registry(ctx: &Ctx, max_depth: usize) -> (Value, Vec<String>) {
+    explore_registry_from(ctx, max_depth, &[])
+}
+
+/// The exploration started from the state the `prefix` operations lead to (they must succeed).
+pub fn explore_registry_from(ctx: &Ctx, max_depth: usize, prefix: &[ROp]) -> (Value, Vec<String>) {
     let quiet = Ctx::new("C11", ctx.tier);
     let real_ctx = ctx;
     let ctx: &Ctx = if real_ctx.id == "C19" { &quiet } else { real_ctx };
@@ -549,7 +561,13 @@ pub fn explore_registry(ctx: &Ctx, max_depth: usize) -> (Value, Vec<String>) {
     set_watch(Watch::default());
     let alpha = alphabet(ctx.tier);
     let shared = Shared { salted: Mutex::new(BTreeMap::new()), salted_rev: Mutex::new(BTreeMap::new()) };
-    let root = RState { reg_ops: vec![], storage: SnapStorage::new(), model: RModel::default(), path: vec![] };
+    let mut root = RState { reg_ops: vec![], storage: SnapStorage::new(), model: RModel::default(), path: vec![] };
+    for op in prefix {
+        match step(ctx, &root, op, &nm, &shared).next {
+            Some(n) => root = n,
+            None => machinery_error("C11: a prefix operation of the registry exploration did not succeed"),
+        }
+    }
     let key = |s: &RState| hash128(&(&s.model, &s.storage.data));
     // states are kept only by the first transition that reaches them (the set is shared by the
     // workers), so a layer never holds more than its new states
